@@ -22,6 +22,9 @@ class C08(EgSpec):
     streams = [
         {'name': 'default', 'component': 'egs', 'config': 'default', 'quick': 300, 'thorough': 8000},
         {'name': 'checks', 'component': 'egs', 'config': 'checks', 'quick': 150, 'thorough': 3000},
+        # the same per-operation checks on e-graphs that carry an analysis (MinSize / Depth): pending entries of kind OnlyAnalysis exist only there
+        {'name': 'analysis', 'component': 'egs', 'config': 'default', 'gen_extra': ['an'], 'quick': 150, 'thorough': 4000},
+        {'name': 'analysis_checks', 'component': 'egs', 'config': 'checks', 'gen_extra': ['an'], 'quick': 80, 'thorough': 1500},
         # rewriting: no panic in any iteration, check() passes after every iteration (extra.txt), observations = rewrite model
         {'name': 'rewrites', 'component': 'egr', 'config': 'default', 'quick': 150, 'thorough': 4000},
         {'name': 'rewrites_checks', 'component': 'egr', 'config': 'checks', 'quick': 80, 'thorough': 1500},
